@@ -25,22 +25,22 @@ theorem exFat12_ok : TableOk .fat12 exFat12 5 :=
 set_option maxRecDepth 8000 in
 example : countFree .fat12 exFat12 5 = .ok 2 := rfl
 
-/-- `NotEnoughSpace` is sound: it is returned only if no entry of `[2,total+2)` is free.
-    Hypothesis `hstart`: the first scan starts inside the table — true whenever `0 < total`
-    (`allocStartV_lt`), or when the hint is `< total+2`. No condition on the hint value otherwise. -/
+/-- `NotEnoughSpace` is sound: it is returned only if no entry of `[2,total+2)` is free — for every hint value and
+    every `total`, zero included (the former side condition "the first scan starts inside the table" was only needed
+    for the FAT12 empty-range defect F21, repaired in commit 8aee7d6). -/
 theorem alloc_nospace_sound (ft : FatType) (f : Array Nat) (total : Nat) (ht : TableOk ft f total)
-    (prev hint : Option Nat) (hstart : allocStartV hint total < total + 2)
+    (prev hint : Option Nat)
     (h : (allocCluster f ft prev hint total).out = .error .noSpace) :
     ∀ i, 2 ≤ i → i < total + 2 → view ft f i ≠ .free :=
-  allocFindV_none _ _ _ (allocCluster_noSpace_inv ht prev hint hstart h)
+  allocFindV_none _ _ _ (allocCluster_noSpace_inv ht prev hint h)
 
 /-- converse (completeness): if no entry of `[2,total+2)` is free the call fails with `NotEnoughSpace` and leaves the
     bytes alone. Needs the hint to be absent or `≥ 2`: a hint of 0/1 makes the scan look at the reserved entries. -/
 theorem alloc_nospace_complete (ft : FatType) (f : Array Nat) (total : Nat) (ht : TableOk ft f total)
-    (prev hint : Option Nat) (hstart : allocStartV hint total < total + 2) (hh : ∀ n, hint = some n → 2 ≤ n)
+    (prev hint : Option Nat) (hh : ∀ n, hint = some n → 2 ≤ n)
     (h : ∀ i, 2 ≤ i → i < total + 2 → view ft f i ≠ .free) :
     allocCluster f ft prev hint total = ⟨.error .noSpace, f⟩ := by
-  apply allocCluster_noSpace ht prev hint hstart
+  apply allocCluster_noSpace ht prev hint
   cases hf : allocFindV (view ft f) hint total with
   | none => rfl
   | some c =>
